@@ -45,6 +45,7 @@ REWRITES = [
     (LIN, [("        x: Sx::Elem,\n    ) -> Result<(), InterpolateError> {\n        let this = interpolator;", "        xq: Sx::Elem,\n    ) -> Result<(), InterpolateError> {\n        let this = interpolator;"),
            ("!this.is_in_range(x)", "!this.is_in_range(xq)"), ("\"x = {x:#?} is not in range\"", "\"x = {xq:#?} is not in range\""),
            ("this.get_index_left_of(x)", "this.get_index_left_of(xq)"), ("(x2, y2), x);", "(x2, y2), xq);")], "the query parameter of Linear::interp_into renamed"),
+    (VE, "        let mid_x = self[mid_idx];\n\n        if mid_x <= x && x < self[mid_idx + 1] {", "        let mid_x = self[mid_idx];\n\n        if self[mid_idx] <= x && x < self[mid_idx + 1] {"),
     (M1, "        if data.ndim() < 1 {", "        if data.ndim() == 0 {"),
     (M1, "        if x.len() != data.shape()[0] {\n            return Err(BuilderError::ShapeError(", "        if data.shape()[0] != x.len() {\n            return Err(BuilderError::ShapeError("),
     (M2, "        if !matches!(x.monotonic_prop(), Rising { strict: true }) {\n            return Err(Monotonic(\n                \"The x-axis needs to be strictly monotonic rising\".into(),\n            ));\n        }\n        if !matches!(y.monotonic_prop(), Rising { strict: true }) {",
